@@ -29,6 +29,10 @@ def cases(thorough):
     out.append(Case("RN-grain", {"reactions": [rx(["H", "H"], ["H2"]), rx(["GRAIN0", "e-"], ["GRAIN-"]), rx(["GRAIN-", "H+"], ["GRAIN0", "H"]), rx(["H", "CR"], ["H+", "e-"], t=101)], "network": {}}, tags={"grain"}))
     # a molecule none of whose elements is present as an atomic species (O2 without O)
     out.append(Case("RN-missing-atom", {"reactions": [rx(["H", "H"], ["H2"]), rx(["O2", "C"], ["CO", "O2"]), rx(["C", "H"], ["CH"])], "network": {}}))
+    # one Network object with a history: the element list is read (as any earlier rendering does), then the network is edited
+    hist = [rx(["H", "H"], ["H2"]), rx(["He", "CR"], ["He+", "e-"], t=101), rx(["He+", "H"], ["He", "H+"]), rx(["C", "O"], ["CO"]), rx(["H", "CO"], ["HCO"]), rx(["H+", "e-"], ["H"])]
+    out.append(Case("RN-history-remove-element", {"reactions": hist, "network": {}, "ops": [{"op": "exec", "code": "_ = net.elements\nnet.remove_reaction([i for i, r in enumerate(net.reaction_list) if any(s.name.startswith('He') for s in r.reactants + r.products)])\n"}]}))
+    out.append(Case("RN-history-require-atom", {"reactions": [hist[0], hist[3], hist[4], hist[5]], "network": {}, "ops": [{"op": "exec", "code": "_ = net.elements\nnet.required_species = ['He', 'N']\n"}]}))
     if thorough:
         out.append(Case("RN-SiS", {"reactions": [rx(["Si", "O"], ["SiO"]), rx(["S", "O"], ["SO"]), rx(["Si+", "e-"], ["Si"]), rx(["SiO", "H+"], ["Si+", "OH"]), rx(["O", "H"], ["OH"]), rx(["H", "H"], ["H2"]), rx(["Si", "CR"], ["Si+", "e-"], t=101), rx(["Mg", "H+"], ["Mg+", "H"]), rx(["Fe", "H+"], ["Fe+", "H"])], "network": {}}))
     return out
@@ -75,6 +79,18 @@ def _one(case, p, meta, tdir, res):
         res["notes"].append(f"{tdir}: no hydrogen element -> Renorm is compiled out")
         return
     kind = ode.KIND[tdir]
+    # the renormalised elements are the atomic species of the network as rendered (computed here from the species list)
+    atoms = set()
+    for sp in meta["species"]:
+        ec = sp["element_count"]
+        if len(ec) == 1 and sum(ec.values()) == 1 and sp["charge"] == 0 and not sp["is_surface"] and not sp["is_electron"]:
+            atoms.add(next(iter(ec)))
+    declared = {k[len("IDX_ELEM_"):] for k in macros if k.startswith("IDX_ELEM_")}
+    if atoms != declared:
+        res["viol"].append({"key": f"{case.name}/{tdir}:element-set", "what": f"the generated renormalisation works on the elements {sorted(declared)} but the atomic species of the rendered network are {sorted(atoms)}: " + ("an element without any species makes the coupling matrix singular" if declared - atoms else "an atomic species is not renormalised"),
+                            "replay": {"case": case.name, "target": tdir, "declared": sorted(declared), "atomic_species": sorted(atoms), "spec": case.spec, "replay_note": "IDX_ELEM_* macros of the emitted naunet_macros.h against the species list of the same rendering"}})
+    else:
+        res["ok"].append(f"{case.name}/{tdir}:element-set")
     L = H.Loaded(p, tdir, tus=["naunet_renorm.cpp", "naunet_physics.cpp", "naunet_constants.cpp"])
     if L.errors:
         tu, err = next(iter(L.errors.items()))
